@@ -122,7 +122,11 @@ def dictEntries (k : Kind) : List Entry :=
   [ { kind := k, name := "__setitem__", methods := ["__setitem__"], guarded := true },
     plain k "__delitem__",
     { kind := k, name := "clear", methods := ["clear"], guarded := true },
-    plain k "update" ]
+    plain k "update",
+    -- a new key that carries the value `get` answers for a missing key (None; 0 for kerning): one key more all the same
+    { kind := k, name := "update[new key, default value]", methods := ["update"] },
+    { kind := k, name := "|=[new key, default value]", methods := ["__ior__"] },
+    { kind := k, name := "__setitem__[new key, default value]", methods := ["__setitem__"] } ]
 
 def glyphList (r : Kind) (R : String) (Rs : String) : List Entry :=
   [ { kind := .glyph, name := "append" ++ R, methods := ["append" ++ R], effs := [.add r true []] },
@@ -181,8 +185,10 @@ def table : List Entry :=
     setter .anchor "x", setter .anchor "y", setter .anchor "name", setter .anchor "color",
     { kind := .anchor, name := "color=spelled", methods := ["color="], guarded := true, effective := false },
     plain .anchor "move",
+    { kind := .anchor, name := "update[new key, default value]", methods := ["update"] },
     setter .guideline "x", setter .guideline "name", setter .guideline "color",
     { kind := .guideline, name := "color=spelled", methods := ["color="], guarded := true, effective := false },
+    { kind := .guideline, name := "update[new key, default value]", methods := ["update"] },
     setter .image "fileName", setter .image "color", setter .image "transformation", plain .image "move" ]
   ++ dictEntries .lib ++ dictEntries .kerning ++ dictEntries .groups ++
   [ setter .info "familyName", setter .info "unitsPerEm", setter .info "ascender", setter .info "openTypeOS2WeightClass",
